@@ -757,7 +757,21 @@ class Lib:
             if isinstance(c, A.SeqVal):
                 n, fn = c.length, c.fn
                 v = args[0]
-                ref.set_content(A.SeqVal(A.simp(sv.add(n, 1)), lambda i, n=n, fn=fn, v=v: ite(sv.cmp("==", i, n), v, lambda: fn(i)) if sv.is_scalar(v) else (v if is_conc(i) and is_conc(n) and i == n else fn(i))))
+                def item(i, n=n, fn=fn, v=v):
+                    if sv.is_scalar(v):
+                        return ite(sv.cmp("==", i, n), v, lambda: fn(i))
+                    same = sv.cmp("==", i, n)
+                    if is_conc(same):
+                        return v if same else fn(i)
+                    if isinstance(v, A.Arr):
+                        # array-valued items: element-wise merge of the appended array and the earlier item
+                        w = fn(i)
+                        if not isinstance(w, A.Arr) or w.ndim != v.ndim:
+                            raise EngineError("append to a symbolic list: items of different kinds")
+                        rv, rw = v.reader(), w.reader()
+                        return A.new_arr(v.shape, lambda idx: ite(same, rv(idx), lambda: rw(idx)), A.promote(v.dtype, w.dtype))
+                    raise EngineError("append of a non-scalar to a symbolic list")
+                ref.set_content(A.SeqVal(A.simp(sv.add(n, 1)), item))
                 return None
             ref.set_content(tuple(c) + (args[0],))
             return None
